@@ -75,6 +75,13 @@ def run(ctx):
     rng = ctx.rng
     from panoptica.panoptica_aggregator import Panoptica_Aggregator
     snap0 = defaults_snapshot()
+    from panoptica import Panoptica_Evaluator, InputType
+    dflt = Panoptica_Evaluator(expected_input=InputType.MATCHED_INSTANCE)
+    dflt_keys0 = list(dflt.resulting_metric_keys)
+    dflt_conf0 = saved_text(dflt)
+    probe = np.zeros((4, 5, 5), np.uint8); probe[1:3, 1:4, 1:4] = 1
+    probe2 = probe.copy(); probe2[1:3, 1:4, 3] = 0
+    dflt_res0 = canon_out(impl.evaluate(dflt, probe2.copy(), probe.copy()))
     for _ in range(ctx.scale(25, 300)):
         cfgs = [gen_cfg(rng, rng.choice(["matched", "unmatched", "semantic"])) for _ in range(rng.randint(1, 3))]
         for c in cfgs:
@@ -147,6 +154,15 @@ def run(ctx):
                         Panoptica_Aggregator(evs[i], Path(tmp) / f"o{step}_{i}.tsv", log_times=rng.random() < 0.6)
                 elif kind == "new":
                     impl.make_evaluator(gen_cfg(rng, "matched"))
+                    # constructions relying on DEFAULT arguments (shared mutable defaults must stay untouched)
+                    from panoptica import Panoptica_Evaluator, InputType
+                    from panoptica.utils.edge_case_handling import EdgeCaseHandler
+                    dm = rng.choice([None, "clDSC", "RVD", "IOU", "ASSD"])
+                    with contextlib.suppress(Exception):
+                        Panoptica_Evaluator(expected_input=InputType.MATCHED_INSTANCE, decision_metric=None if dm is None else impl.metric(dm),
+                                            decision_threshold=None if dm is None else 0.5)
+                    with contextlib.suppress(Exception):
+                        EdgeCaseHandler()
                 elif kind == "save":
                     t = saved_text(evs[i])
                     if t != conf0[i]:
@@ -161,6 +177,11 @@ def run(ctx):
                     ctx.violation("saved configuration changed through use", {"cfg": jcfg(cfgs[i]), "history": hist})
         ctx.count({"history": hist, "cfgs": [jcfg(c) for c in cfgs]}, n_agg >= 1 or any(len(s) >= 2 for s in inputs_seen))
         ctx.bump(f"len={len(hist)}/agg={n_agg}")
+    fresh_dflt = Panoptica_Evaluator(expected_input=InputType.MATCHED_INSTANCE)
+    if list(fresh_dflt.resulting_metric_keys) != dflt_keys0 or list(dflt.resulting_metric_keys) != dflt_keys0 or saved_text(dflt) != dflt_conf0 \
+            or saved_text(fresh_dflt) != dflt_conf0 or canon_out(impl.evaluate(dflt, probe2.copy(), probe.copy())) != dflt_res0:
+        ctx.violation("a default-constructed evaluator changed (keys, saved configuration or results) after other objects were constructed/used",
+                      {"keys_before": dflt_keys0, "keys_after": list(fresh_dflt.resulting_metric_keys)})
     if defaults_snapshot() != snap0:
         ctx.violation("a mutable default argument was modified by the histories", {"before": snap0, "after": defaults_snapshot()})
     # serial vs real process pool
